@@ -353,3 +353,341 @@ Theorem C15_update_body_rebuild_response : forall (gz gunz : bytes -> bytes) p d
     header p' H_CONTENT_TYPE = Ok ct /\ is_chunked_encoded p' = is_chunked_encoded p.
 Proof. exact update_body_rebuild_response. Qed.
 Print Assumptions C15_update_body_rebuild_response.
+
+(* ============================================================================================== *)
+(* the remaining arguments of HttpParser.build: disable_headers, for_proxy, host                  *)
+(* (proofs in Http/BuildArgsFacts.v; the specification maps [minus_headers] = filter on the lower-cased name,
+   [override_host] = map replacing the value of every header named Host, [rebuilt_hs D ho hs] =
+   override_host ho (minus_headers D hs), [readded_D], [proxy_target], [tunnel_target] and the call sites are
+   defined in Http/BuildArgs.v, independently of the dict model of Http/Builders.v; on every run the harness
+   evaluates them in Coq against what the implementation's output parses back to: BBuildSpec)         *)
+From PM Require Http.UrlSpec Http.UrlFacts.
+From PM Require Import Http.BuildArgs Http.BuildArgsFacts.
+
+(* Byte-exact output for ALL arguments and every parser state that passes build()'s assert: request line
+   with the computed target; one line per header of the client's map minus the disabled names, Host value
+   replaced, in the client's order and spelling, with the Content-Length build_http_request sets for a
+   non-empty un-chunked body; blank line; the body (chunk-encoded iff the message is chunked).
+   Only the target depends on for_proxy, only the header lines on disable_headers and host. *)
+Theorem C15_build_args_bytes : forall ua p D fp ho m v hs bd tgt,
+  ty p = REQUEST_PARSER -> method p = Some m -> m <> [] -> version p = Some v -> v <> [] ->
+  headers p = lift_headers hs -> NoDup (lkeys hs) ->
+  get_body_or_chunks p = Ok bd -> build_target p fp = Ok tgt ->
+  build ua p D fp ho =
+  Ok (m ++ SP :: tgt ++ SP :: v ++ CRLF ++ header_lines (with_length bd (rebuilt_hs D ho hs)) ++ CRLF ++ or_empty bd).
+Proof. exact build_args_bytes. Qed.
+Print Assumptions C15_build_args_bytes.
+
+(* ---- disable_headers ---- *)
+(* For every re-serialisable parsed request p (the decidable domain of C15_rebuild_stable_request_bool) and EVERY
+   list D (no assumption on its entries): build(disable_headers=D) re-parses to a COMPLETE request with the same
+   method, version, path, decoded body and chunked flag, and exactly the header map of p without the headers
+   whose lower-cased name is an element of D — order, spelling and values of all others kept — plus, iff
+   Content-Length itself was disabled on a message with a non-empty un-chunked body, the Content-Length that
+   build_http_request writes again at the end ([readded_D]).
+   Guard [te_guard]: Transfer-Encoding is not disabled on a chunked message (refuted without it, below). *)
+Theorem C15_build_disable_headers : forall ua p D, rebuildable_req p = true -> te_guard p D ->
+  exists raw p', build ua p D false None = Ok raw /\
+    parse (new_parser REQUEST_PARSER) raw = Ok p' /\
+    state p' = COMPLETE /\ buffer p' = None /\
+    method p' = method p /\ version p' = version p /\ path p' = Some (path0 p) /\ host p' = None /\
+    headers p' = lift_headers (minus_headers D (unlift (headers p)) ++ readded_D p D) /\
+    bodyb p' = bodyb p /\ is_chunked_encoded p' = is_chunked_encoded p.
+Proof. exact build_disable_headers. Qed.
+Print Assumptions C15_build_disable_headers.
+
+(* when neither framing header is named in D: exactly the header map minus D, nothing added *)
+Theorem C15_build_disable_headers_exact : forall ua p D, rebuildable_req p = true ->
+  mem_bytes TRANSFER_ENCODING D = false -> mem_bytes CONTENT_LENGTH D = false ->
+  exists raw p', build ua p D false None = Ok raw /\
+    parse (new_parser REQUEST_PARSER) raw = Ok p' /\
+    state p' = COMPLETE /\ buffer p' = None /\
+    method p' = method p /\ version p' = version p /\ path p' = Some (path0 p) /\ host p' = None /\
+    headers p' = lift_headers (minus_headers D (unlift (headers p))) /\
+    bodyb p' = bodyb p /\ is_chunked_encoded p' = is_chunked_encoded p.
+Proof. exact build_disable_headers_exact. Qed.
+Print Assumptions C15_build_disable_headers_exact.
+
+(* what is removed and what is not: a header stays iff its lower-cased name is not in D (minus_headers is a
+   filter: order kept); an entry of D that is not lower-case removes nothing (flag.py lower-cases the flag) *)
+Theorem C15_minus_headers_spec : forall D hs kv,
+  In kv (minus_headers D hs) <-> In kv hs /\ mem_bytes (lower (fst kv)) D = false.
+Proof. exact minus_headers_In. Qed.
+Print Assumptions C15_minus_headers_spec.
+Theorem C15_disable_entry_not_lower_case : forall d D hs, lower d <> d ->
+  minus_headers (d :: D) hs = minus_headers D hs.
+Proof. exact upper_entry_inert. Qed.
+Print Assumptions C15_disable_entry_not_lower_case.
+
+(* ---- host= ---- *)
+(* For every re-serialisable parsed request and every value hv the parser reads back unchanged (stripped, no CR):
+   build(host=hv) re-parses to the same request with exactly [override_host (Some hv)] of its header map. *)
+Theorem C15_build_host_override : forall ua p hv, rebuildable_req p = true -> value_ok hv ->
+  exists raw p', build ua p [] false (Some hv) = Ok raw /\
+    parse (new_parser REQUEST_PARSER) raw = Ok p' /\
+    state p' = COMPLETE /\ buffer p' = None /\
+    method p' = method p /\ version p' = version p /\ path p' = Some (path0 p) /\ host p' = None /\
+    headers p' = lift_headers (override_host (Some hv) (unlift (headers p))) /\
+    bodyb p' = bodyb p /\ is_chunked_encoded p' = is_chunked_encoded p.
+Proof. exact build_host_override. Qed.
+Print Assumptions C15_build_host_override.
+
+(* ... and [override_host] changes exactly one entry: the value of the Host header, under the client's spelling
+   of the name, at its position; a request without a Host header is left without one *)
+Theorem C15_host_override_exact : forall hv hs old, NoDup (lkeys hs) -> get_ci L_HOST hs = Some old ->
+  exists h1 hn h2, hs = h1 ++ (hn, old) :: h2 /\ lower hn = L_HOST /\
+                   override_host (Some hv) hs = h1 ++ (hn, hv) :: h2.
+Proof. exact override_host_split. Qed.
+Print Assumptions C15_host_override_exact.
+Theorem C15_host_override_absent : forall ho hs, get_ci L_HOST hs = None -> override_host ho hs = hs.
+Proof. exact override_host_absent. Qed.
+Print Assumptions C15_host_override_absent.
+
+(* ---- both together (for_proxy=False), on the decidable domain and on the wire ---- *)
+Theorem C15_build_disable_and_host : forall ua p D ho,
+  rebuildable_req p = true -> te_guard p D -> match ho with Some hv => value_ok hv | None => True end ->
+  exists raw p', build ua p D false ho = Ok raw /\
+    parse (new_parser REQUEST_PARSER) raw = Ok p' /\
+    state p' = COMPLETE /\ buffer p' = None /\
+    method p' = method p /\ version p' = version p /\ path p' = Some (path0 p) /\ host p' = None /\
+    headers p' = lift_headers (rebuilt_hs D ho (unlift (headers p)) ++ readded_D p D) /\
+    bodyb p' = bodyb p /\ is_chunked_encoded p' = is_chunked_encoded p.
+Proof. exact rebuild_origin_bool. Qed.
+Print Assumptions C15_build_disable_and_host.
+
+(* the same for every well-formed request ON THE WIRE (domain and guards of C15_rebuild_stable_request) *)
+Theorem C15_build_disable_and_host_wire : forall ua D ho msg m t v u,
+  message_ok DEFAULT_ALLOWED_URL_SCHEMES msg -> m_start msg = ReqLine m t v u ->
+  NoDup (lkeys (all_hdrs msg)) -> m <> [] -> v <> [] ->
+  (u_remainder u = None \/ u_remainder u = Some [] \/
+   exists r, u_remainder u = Some (SLASH :: r) /\ tok (SLASH :: r) /\ match r with x :: _ => x <> SLASH | [] => True end) ->
+  canonical_length false msg ->
+  (mem_bytes TRANSFER_ENCODING D = true -> msg_chunked msg = false) ->
+  match ho with Some hv => value_ok hv | None => True end ->
+  exists p raw p',
+    parse (new_parser REQUEST_PARSER) (render msg) = Ok p /\ state p = COMPLETE /\
+    build ua p D false ho = Ok raw /\
+    parse (new_parser REQUEST_PARSER) raw = Ok p' /\ state p' = COMPLETE /\ buffer p' = None /\
+    method p' = method p /\ version p' = version p /\ path p' = Some (path0 p) /\
+    headers p' = lift_headers (rebuilt_hs D ho (all_hdrs msg) ++ readded_D p D) /\
+    bodyb p' = bodyb p /\ is_chunked_encoded p' = is_chunked_encoded p.
+Proof. exact wire_rebuild_origin. Qed.
+Print Assumptions C15_build_disable_and_host_wire.
+
+(* ---- for_proxy=True ---- *)
+(* bytes: build(for_proxy=True) differs from build() exactly in the request-target, which is
+   scheme://host:port path (scheme "http" when the received target had none: fix 68a74df; path or "/"),
+   and host:port for a CONNECT request *)
+Theorem C15_build_for_proxy_bytes : forall ua p D ho m v hs h pt u,
+  ty p = REQUEST_PARSER -> method p = Some m -> m <> [] -> version p = Some v -> v <> [] ->
+  headers p = lift_headers hs -> NoDup (lkeys hs) ->
+  host p = Some h -> h <> [] -> port p = Some pt -> pt <> 0%Z -> purl p = Some u ->
+  exists rest,
+    build ua p D false ho = Ok (m ++ SP :: path0 p ++ rest) /\
+    build ua p D true ho =
+      Ok (m ++ SP :: (if is_https_tunnel p then tunnel_target h pt else proxy_target (u_scheme u) h pt (path0 p)) ++ rest).
+Proof. exact build_for_proxy_bytes. Qed.
+Print Assumptions C15_build_for_proxy_bytes.
+
+(* `assert self.host and self.port and self._url`: no host (origin-form), an empty host, no port, port 0 *)
+Theorem C15_build_for_proxy_assert : forall p,
+  truthy (host p) = false \/ port p = None \/ port p = Some 0%Z \/ purl p = None ->
+  build_target p true = Err AssertionError.
+Proof. exact build_target_proxy_assert. Qed.
+Print Assumptions C15_build_for_proxy_assert.
+
+(* round trip on the wire: every well-formed request whose target is a rendering of the C14 target grammar
+   (Http/UrlSpec.v: absolute-form with optional userinfo / port / path, authority-form; reg-names, IPv4, bracketed
+   IPv6; any port text with a non-zero value) parses to p; build(for_proxy=True, disable_headers=D, host=ho)
+   parses back to a COMPLETE request naming the SAME host and port and — unless it is a CONNECT — the same path
+   (path or "/"), with method, version, tunnel flag, header map (as for build()) and body unchanged. *)
+Theorem C15_build_for_proxy : forall ua D ho msg m tg v u h,
+  message_ok DEFAULT_ALLOWED_URL_SCHEMES msg -> m_start msg = ReqLine m (UrlSpec.render_target tg) v u ->
+  UrlSpec.wf_target tg = true -> target_host tg = Some h -> 0 < target_port (bytes_eqb m CONNECT) tg ->
+  NoDup (lkeys (all_hdrs msg)) -> m <> [] -> v <> [] ->
+  canonical_length false msg ->
+  (mem_bytes TRANSFER_ENCODING D = true -> msg_chunked msg = false) ->
+  match ho with Some hv => value_ok hv | None => True end ->
+  exists p raw p',
+    parse (new_parser REQUEST_PARSER) (render msg) = Ok p /\ state p = COMPLETE /\
+    host p = Some (UrlSpec.host_text h) /\ port p = Some (Z.of_N (target_port (bytes_eqb m CONNECT) tg)) /\
+    path p = target_path tg /\
+    build ua p D true ho = Ok raw /\
+    parse (new_parser REQUEST_PARSER) raw = Ok p' /\ state p' = COMPLETE /\ buffer p' = None /\
+    method p' = method p /\ version p' = version p /\ is_https_tunnel p' = is_https_tunnel p /\
+    host p' = host p /\ port p' = port p /\
+    path p' = (if bytes_eqb m CONNECT then None else Some (path0 p)) /\
+    headers p' = lift_headers (rebuilt_hs D ho (all_hdrs msg) ++ readded_D p D) /\
+    bodyb p' = bodyb p /\ is_chunked_encoded p' = is_chunked_encoded p.
+Proof. exact wire_rebuild_proxy. Qed.
+Print Assumptions C15_build_for_proxy.
+
+(* the same for ANY parser state with these properties (scheme None / http / https; any path without SP/CR,
+   "//x" included: in absolute-form it is not re-read as a network-path reference) *)
+Theorem C15_build_for_proxy_state : forall ua p D ho m v hs h n u,
+  ty p = REQUEST_PARSER ->
+  method p = Some m -> m <> [] -> tok m ->
+  version p = Some v -> v <> [] -> ~ In CR v ->
+  is_https_tunnel p = bytes_eqb m CONNECT ->
+  host p = Some (UrlSpec.host_text h) -> UrlSpec.wf_host h = true -> tok (UrlSpec.host_text h) ->
+  port p = Some (Z.of_N n) -> 0 < n -> UrlSpec.wf_port (dec_of_N n) = true ->
+  purl p = Some u -> scheme_ok (u_scheme u) ->
+  path_tok p ->
+  headers p = lift_headers hs -> wfhP hs -> framing_consistent p hs ->
+  te_guard p D -> match ho with Some hv => value_ok hv | None => True end ->
+  exists raw p', build ua p D true ho = Ok raw /\
+    parse (new_parser REQUEST_PARSER) raw = Ok p' /\
+    state p' = COMPLETE /\ buffer p' = None /\
+    method p' = Some m /\ version p' = Some v /\ is_https_tunnel p' = is_https_tunnel p /\
+    host p' = host p /\ port p' = port p /\
+    path p' = (if is_https_tunnel p then None else Some (path0 p)) /\
+    headers p' = lift_headers (rebuilt_hs D ho hs ++ readded_D p D) /\
+    bodyb p' = bodyb p /\ is_chunked_encoded p' = is_chunked_encoded p.
+Proof. exact rebuild_proxy_state. Qed.
+Print Assumptions C15_build_for_proxy_state.
+
+(* the most general form: whatever target build() computes, if Url.from_bytes (opaque) reads it as u' the rebuilt
+   request parses to (method, u', version, the specified header map, the body) *)
+Theorem C15_build_args_state : forall ua p D fp ho m v hs tgt u',
+  ty p = REQUEST_PARSER ->
+  method p = Some m -> m <> [] -> tok m ->
+  version p = Some v -> v <> [] -> ~ In CR v ->
+  build_target p fp = Ok tgt -> tok tgt -> from_bytes DEFAULT_ALLOWED_URL_SCHEMES tgt = Ok u' ->
+  headers p = lift_headers hs -> wfhP hs ->
+  match ho with Some hv => value_ok hv | None => True end ->
+  framing_after p (rebuilt_hs D ho hs) ->
+  exists raw p', build ua p D fp ho = Ok raw /\
+    parse (new_parser REQUEST_PARSER) raw = Ok p' /\
+    state p' = COMPLETE /\ buffer p' = None /\
+    method p' = Some m /\ version p' = Some v /\ purl p' = Some u' /\
+    is_https_tunnel p' = bytes_eqb m CONNECT /\
+    (host p', port p', path p') = line_attributes (bytes_eqb m CONNECT) u' /\
+    headers p' = lift_headers (rebuilt_hs D ho hs ++ readded p (rebuilt_hs D ho hs)) /\
+    bodyb p' = bodyb p /\ is_chunked_encoded p' = is_chunked_encoded p.
+Proof. exact rebuild_args_state. Qed.
+Print Assumptions C15_build_args_state.
+
+(* ---- the call sites ---- *)
+(* forward proxy, server.py _queue_request_for_upstream: request.build(disable_headers=flags.disable_headers)
+   on the request object r2 as mutated before the call *)
+Theorem C15_forward_call_site : forall ua D r2, rebuildable_req r2 = true -> te_guard r2 D ->
+  exists raw p', forward_call ua D r2 = Ok raw /\
+    parse (new_parser REQUEST_PARSER) raw = Ok p' /\ state p' = COMPLETE /\ buffer p' = None /\
+    method p' = method r2 /\ version p' = version r2 /\ path p' = Some (path0 r2) /\ host p' = None /\
+    headers p' = lift_headers (minus_headers D (unlift (headers r2)) ++ readded_D r2 D) /\
+    bodyb p' = bodyb r2 /\ is_chunked_encoded p' = is_chunked_encoded r2.
+Proof. exact forward_call_site. Qed.
+Print Assumptions C15_forward_call_site.
+
+(* reverse proxy, reverse.py handle_request: request.build(host=hostname[:port] if rewrite_host_header else None) *)
+Theorem C15_reverse_call_site : forall ua rw hostname port p, rebuildable_req p = true ->
+  match reverse_host_arg rw hostname port with Some hv => value_ok hv | None => True end ->
+  exists raw p', reverse_call ua rw hostname port p = Ok raw /\
+    parse (new_parser REQUEST_PARSER) raw = Ok p' /\ state p' = COMPLETE /\ buffer p' = None /\
+    method p' = method p /\ version p' = version p /\ path p' = Some (path0 p) /\ host p' = None /\
+    headers p' = lift_headers (override_host (reverse_host_arg rw hostname port) (unlift (headers p))) /\
+    bodyb p' = bodyb p /\ is_chunked_encoded p' = is_chunked_encoded p.
+Proof. exact reverse_call_site. Qed.
+Print Assumptions C15_reverse_call_site.
+(* its hypothesis holds for every host name without CR that does not start with white space, with a port *)
+Theorem C15_reverse_host_value_ok : forall hn n, hn <> [] -> ~ In CR hn -> is_ws (hd 0 hn) = false ->
+  value_ok (hn ++ [COLON] ++ bytes_of_Z (Z.of_N n)).
+Proof. exact value_ok_hostport. Qed.
+Print Assumptions C15_reverse_host_value_ok.
+
+(* proxy pool, proxy_pool.py: request.build(for_proxy=True): same origin, header map untouched *)
+Theorem C15_proxy_pool_call_site : forall ua msg m tg v u h,
+  message_ok DEFAULT_ALLOWED_URL_SCHEMES msg -> m_start msg = ReqLine m (UrlSpec.render_target tg) v u ->
+  UrlSpec.wf_target tg = true -> target_host tg = Some h -> 0 < target_port (bytes_eqb m CONNECT) tg ->
+  NoDup (lkeys (all_hdrs msg)) -> m <> [] -> v <> [] ->
+  canonical_length false msg ->
+  exists p raw p',
+    parse (new_parser REQUEST_PARSER) (render msg) = Ok p /\ state p = COMPLETE /\
+    host p = Some (UrlSpec.host_text h) /\ port p = Some (Z.of_N (target_port (bytes_eqb m CONNECT) tg)) /\
+    path p = target_path tg /\
+    proxy_pool_call ua p = Ok raw /\
+    parse (new_parser REQUEST_PARSER) raw = Ok p' /\ state p' = COMPLETE /\ buffer p' = None /\
+    method p' = method p /\ version p' = version p /\ is_https_tunnel p' = is_https_tunnel p /\
+    host p' = host p /\ port p' = port p /\
+    path p' = (if bytes_eqb m CONNECT then None else Some (path0 p)) /\
+    headers p' = headers p /\ bodyb p' = bodyb p /\ is_chunked_encoded p' = is_chunked_encoded p.
+Proof. exact proxy_pool_call_site. Qed.
+Print Assumptions C15_proxy_pool_call_site.
+
+(* ---- refutation of the unguarded statement, and non-vacuity ---- *)
+(* FULL STATEMENT of C15_build_disable_headers without [te_guard] is FALSE of the faithful model and of the code
+   (replayed: corpus/C15/buildargs.json): disabling transfer-encoding on a chunked request drops the header but
+   still chunk-encodes the body and announces the ENCODED bytes by Content-Length; the recipient's body is
+   "5 CRLF hello CRLF 0 CRLF CRLF", not "hello". *)
+Theorem C15_build_disable_te_refuted :
+  exists p raw p',
+    parse (new_parser REQUEST_PARSER) ex_chunked_hello = Ok p /\ state p = COMPLETE /\
+    rebuildable_req p = true /\ body p = Some (bs "hello") /\
+    build ex_ua p [TRANSFER_ENCODING] false None = Ok raw /\
+    raw = bs "POST /x HTTP/1.1" ++ CRLF ++ bs "Host: a" ++ CRLF ++ bs "Content-Length: 15" ++ CRLF ++ CRLF ++
+          bs "5" ++ CRLF ++ bs "hello" ++ CRLF ++ bs "0" ++ CRLF ++ CRLF /\
+    parse (new_parser REQUEST_PARSER) raw = Ok p' /\ state p' = COMPLETE /\
+    is_chunked_encoded p' = false /\
+    body p' = Some (bs "5" ++ CRLF ++ bs "hello" ++ CRLF ++ bs "0" ++ CRLF ++ CRLF).
+Proof. exact build_disable_te_refuted. Qed.
+Print Assumptions C15_build_disable_te_refuted.
+
+(* "exactly the header map minus D" is false when D names Content-Length on a request with a body: the header is
+   written again (that is what [readded_D] states) *)
+Example C15_build_disable_cl_readded :
+  exists p raw p',
+    parse (new_parser REQUEST_PARSER) ex_post_cl = Ok p /\ rebuildable_req p = true /\
+    te_guard p [CONTENT_LENGTH; bs "x-id"] /\
+    build ex_ua p [CONTENT_LENGTH; bs "x-id"] false None = Ok raw /\
+    raw = bs "POST /x HTTP/1.1" ++ CRLF ++ bs "Host: a" ++ CRLF ++ bs "Content-Length: 5" ++ CRLF ++ CRLF ++ bs "hello" /\
+    parse (new_parser REQUEST_PARSER) raw = Ok p' /\
+    headers p' = lift_headers [(bs "Host", bs "a"); (bs "Content-Length", bs "5")] /\
+    minus_headers [CONTENT_LENGTH; bs "x-id"] (unlift (headers p)) = [(bs "Host", bs "a")] /\
+    readded_D p [CONTENT_LENGTH; bs "x-id"] = [(bs "Content-Length", bs "5")].
+Proof. exact build_disable_cl_readded. Qed.
+
+Example C15_nonvacuous_disable_headers :
+  exists p, parse (new_parser REQUEST_PARSER) ex_post_cl = Ok p /\ rebuildable_req p = true /\
+    mem_bytes TRANSFER_ENCODING [bs "x-id"; bs "not-there"] = false /\
+    mem_bytes CONTENT_LENGTH [bs "x-id"; bs "not-there"] = false /\
+    minus_headers [bs "x-id"; bs "not-there"] (unlift (headers p)) = [(bs "content-length", bs "5"); (bs "Host", bs "a")] /\
+    minus_headers [bs "X-Id"] (unlift (headers p)) = unlift (headers p) /\
+    build ex_ua p [bs "x-id"; bs "not-there"] false None =
+      Ok (bs "POST /x HTTP/1.1" ++ CRLF ++ bs "content-length: 5" ++ CRLF ++ bs "Host: a" ++ CRLF ++ CRLF ++ bs "hello") /\
+    build ex_ua p [bs "X-Id"] false None = Ok ex_post_cl.
+Proof. exact ex_disable_headers. Qed.
+
+Example C15_nonvacuous_host_override :
+  exists p q, parse (new_parser REQUEST_PARSER) ex_get_host = Ok p /\ rebuildable_req p = true /\
+    value_ok (bs "backend.internal:8080") /\
+    reverse_host_arg true (bs "backend.internal") (Some 8080%Z) = Some (bs "backend.internal:8080") /\
+    build ex_ua p [] false (Some (bs "backend.internal:8080")) =
+      Ok (bs "GET /p HTTP/1.1" ++ CRLF ++ bs "Accept: */*" ++ CRLF ++ bs "HOST: backend.internal:8080" ++ CRLF ++
+          bs "X-Id: 7" ++ CRLF ++ CRLF) /\
+    parse (new_parser REQUEST_PARSER) ex_get_nohost = Ok q /\ rebuildable_req q = true /\
+    build ex_ua q [] false (Some (bs "backend.internal:8080")) = Ok ex_get_nohost.
+Proof. exact ex_host_override. Qed.
+
+(* the targets build(for_proxy=True) writes, computed by the model (same inputs replayed on the code) *)
+Example C15_for_proxy_targets :
+  fp_target (bs "GET http://user:pw@[::1]:8080/x?y HTTP/1.1" ++ CRLF ++ CRLF) = Ok (bs "http://[::1]:8080/x?y") /\
+  fp_target (bs "GET http://example.com HTTP/1.1" ++ CRLF ++ CRLF) = Ok (bs "http://example.com:80/") /\
+  fp_target (bs "GET example.com:8080 HTTP/1.1" ++ CRLF ++ CRLF) = Ok (bs "http://example.com:8080/") /\
+  fp_target (bs "CONNECT example.com:443 HTTP/1.1" ++ CRLF ++ CRLF) = Ok (bs "example.com:443") /\
+  fp_target (bs "GET https://example.com/a HTTP/1.1" ++ CRLF ++ CRLF) = Ok (bs "https://example.com:80/a") /\
+  fp_target (bs "GET http://h//x HTTP/1.1" ++ CRLF ++ CRLF) = Ok (bs "http://h:80//x") /\
+  fp_target (bs "GET /x HTTP/1.1" ++ CRLF ++ bs "Host: h" ++ CRLF ++ CRLF) = Err AssertionError /\
+  fp_target (bs "GET http://h:0/ HTTP/1.1" ++ CRLF ++ CRLF) = Err AssertionError.
+Proof. exact ex_for_proxy_targets. Qed.
+
+Example C15_nonvacuous_for_proxy :
+  message_ok DEFAULT_ALLOWED_URL_SCHEMES ex_abs_msg /\ UrlSpec.wf_target ex_abs_target = true /\
+  target_host ex_abs_target = Some (UrlSpec.IPv6 (bs "::1")) /\ 0 < target_port false ex_abs_target /\
+  NoDup (lkeys (all_hdrs ex_abs_msg)) /\ canonical_length false ex_abs_msg /\
+  render ex_abs_msg = bs "POST http://user:pw@[::1]:8080/x?y HTTP/1.1" ++ CRLF ++ bs "Host: [::1]:8080" ++ CRLF ++
+                      bs "content-length: 5" ++ CRLF ++ bs "Proxy-Connection: keep-alive" ++ CRLF ++ CRLF ++ bs "hello" /\
+  exists p, parse (new_parser REQUEST_PARSER) (render ex_abs_msg) = Ok p /\
+    build ex_ua p [] true None =
+      Ok (bs "POST http://[::1]:8080/x?y HTTP/1.1" ++ CRLF ++ bs "Host: [::1]:8080" ++ CRLF ++
+          bs "content-length: 5" ++ CRLF ++ bs "Proxy-Connection: keep-alive" ++ CRLF ++ CRLF ++ bs "hello").
+Proof. exact ex_for_proxy_hypotheses. Qed.
